@@ -85,32 +85,35 @@ func Discriminators(a, b [][]Matcher) []map[string]string {
 	return out
 }
 
-// BothSides returns, for every matcher of sets, one domain label set on which that single matcher
-// holds and one on which it does not (when the domain has them).
-func BothSides(sets [][]Matcher) []map[string]string {
-	var out []map[string]string
-	for _, set := range sets {
-		for _, m := range set {
-			var yes, no map[string]string
-			for _, ls := range Domain() {
-				r, ok := MatchSets([][]Matcher{{m}}, ls)
-				if !ok {
-					continue
-				}
-				if r && yes == nil {
-					yes = ls
-				}
-				if !r && no == nil {
-					no = ls
-				}
-			}
-			if yes != nil {
-				out = append(out, yes)
-			}
-			if no != nil {
-				out = append(out, no)
-			}
+// BothSides returns, for one matcher of sets chosen at random, a random domain label set on which
+// that single matcher holds and one on which it does not (when the domain has them).
+func BothSides(r *rand.Rand, sets [][]Matcher) []map[string]string {
+	if len(sets) == 0 {
+		return nil
+	}
+	set := sets[r.IntN(len(sets))]
+	if len(set) == 0 {
+		return nil
+	}
+	m := set[r.IntN(len(set))]
+	var yes, no []map[string]string
+	for _, ls := range Domain() {
+		res, ok := MatchSets([][]Matcher{{m}}, ls)
+		if !ok {
+			continue
 		}
+		if res {
+			yes = append(yes, ls)
+		} else {
+			no = append(no, ls)
+		}
+	}
+	var out []map[string]string
+	if len(yes) > 0 {
+		out = append(out, yes[r.IntN(len(yes))])
+	}
+	if len(no) > 0 {
+		out = append(out, no[r.IntN(len(no))])
 	}
 	return out
 }
